@@ -110,6 +110,25 @@ func c17OptionsEval(tier string, _ int) CaseResult {
 		if c := mk(kind); c != nil && mcp.VerifClientRetryConfig(c) != nil {
 			cr.Violations = append(cr.Violations, V("options:retry-without-option:"+kind, "a client built without a retry option has the retry configuration %+v", *mcp.VerifClientRetryConfig(c)))
 		}
+		// options are values: creating other options between the creation and the use of one must not change it
+		var table []mcp.ClientOption
+		for _, r := range rs {
+			table = append(table, mcp.WithSimpleRetry(r))
+		}
+		for ti, r := range rs {
+			n++
+			c := mk(kind, table[ti])
+			if c == nil {
+				return cr
+			}
+			want := mcp.VerifRetryValidate(mcp.VerifRetryConfig{MaxRetries: r, InitialBackoff: 500 * time.Millisecond, BackoffFactor: 2, MaxBackoff: 8 * time.Second})
+			if got := mcp.VerifClientRetryConfig(c); got == nil || !same(*got, want) {
+				if !seen["simple-table:"+kind] {
+					seen["simple-table:"+kind] = true
+					cr.Violations = append(cr.Violations, V("options:simple-retry-shared-state:"+kind, "WithSimpleRetry(%d), created before %d other retry options and applied afterwards, yields %+v, expected %+v", r, len(rs)-ti-1, got, want))
+				}
+			}
+		}
 		for _, r := range rs {
 			n++
 			c := mk(kind, mcp.WithSimpleRetry(r))
@@ -349,6 +368,11 @@ func c17ExecEval(tier string, i int) CaseResult {
 					}
 				}
 				cancel()
+			}
+			// "cancelling the caller's context ends the sequence at once": no timer may be needed for the return
+			vsched.Quiesce()
+			if !done.Get() {
+				viol = append(viol, V("execute:cancel-not-prompt", "the context was cancelled during wait %d but Execute returned only after (virtual) time had passed (maxRetries=%d cfg=%d)", cs.Cancel, cs.M, cs.Cfg))
 			}
 		}
 		vsched.Quiesce()
